@@ -86,6 +86,27 @@ def check_case(kind, depth, acc, apex, cs, part, full_cache):
             if tg.angdist(v, c).max() > 1e-9 or bool(tile.increasing) != inc:
                 bad("leaf-tile-geometry", "leaf %r delivered with corners %.3g rad away from its own tile's (coordinate system %s)" % (pos, tg.angdist(v, c).max(), cs or "astronomical"))
                 break
+    # a pyramid keeps the coordinate system it was made with: a second pyramid made with the OTHER system after
+    # it (and before it is traversed) must not change the tiles the first one hands out
+    if kind != "generic" and depth >= 1:
+        try:
+            from vt.ref import toastgeom as tg
+
+            with quiet():
+                first = mk()
+                stages.make_pyramid(kind, depth, acc, apex, None if cs == "planetary" else "planetary")
+                held = []
+                first.visit_leaves(lambda pos, tile: held.append((tuple(pos), tile)), parallel=1)
+            for pos, tile in held[:6]:
+                c, inc = _ref_tile(pos[0], pos[1], pos[2], cs == "planetary")
+                v = tg.vec(np.array([float(q[0]) for q in tile.corners]), np.array([float(q[1]) for q in tile.corners]))
+                if tg.angdist(v, c).max() > 1e-9 or bool(tile.increasing) != inc:
+                    bad("history/coordinate-system-of-a-later-pyramid-used", "a pyramid made for the %s system, traversed after another pyramid was made for the other system, delivered leaf %r with the other system's geometry" % (cs or "astronomical", pos))
+                    break
+            if sorted(h[0] for h in held) != sorted(lset):
+                bad("history/coordinate-system-of-a-later-pyramid-used", "the set of leaves changed after another pyramid was made for the other system")
+        except Exception as e:
+            bad("history/raises:%s" % type(e).__name__, repr(e))
     # a request the pyramid must refuse (apex deeper than the pyramid) leaves the instance unchanged
     try:
         with quiet():
